@@ -59,13 +59,13 @@ SkC == <<LC, Slot, CO, LB, Slot, CM, N1, RB, CM, Slot, CO, V("null"), RC>>
 NastyStr == {<<"Q", "s", "s">>, <<"a", "s", "t">>, <<"B">>, <<"t", "s", "O">>}
 NastyCom == {BlockC(<<"q", "a">>), LineC(<<"a", "q", "b">>, "term"),
              BlockC(<<"s", "s", "n", "t">>), LineC(<<"s", "t", "o">>, "term")}
-GapTriples == {<<0, 2, 5>>, <<1, 6, 13>>, <<3, 9, 11>>}
+GapTriples == [C0 |-> <<0, 2, 5>>, C1 |-> <<1, 6, 13>>, C2 |-> <<3, 9, 11>>]
 AtEnd(c, g) == IF g = Len(SkC) /\ c.k = "l" THEN [c EXCEPT !.x = "open"] ELSE c
-FamC ==
+FamC(g) ==
   {MkDoc(Build(SkC, <<b1, b2, b3>>,
                Gaps(Len(SkC), (g[1] :> <<c1>>) @@ (g[2] :> <<c2>>) @@ (g[3] :> <<AtEnd(c3, g[3])>>)))) :
      b1 \in NastyStr, b2 \in NastyStr, b3 \in NastyStr,
-     c1 \in NastyCom, c2 \in NastyCom, c3 \in NastyCom, g \in GapTriples}
+     c1 \in NastyCom, c2 \in NastyCom, c3 \in NastyCom}
 
 \* D: what can stand in one gap: white space and comments back to back
 DecorAlpha == {Ws, Nl, BlockC(<<>>), BlockC(<<"t">>), LineC(<<>>, "term"), LineC(<<"s">>, "term")}
@@ -92,7 +92,7 @@ FamE ==
 \*    class o) or many small tokens (R = m repetitions of unit)
 Big(n) ==
   CASE n = "str70k"    -> MkBig(<<LB, StrI(<<"F">>), RB>>, 70000, <<>>, 0)
-    [] n = "str60k"    -> MkBig(<<LB, StrI(<<"F">>), RB>>, 60000, <<>>, 0)
+    [] n = "str40k"    -> MkBig(<<LB, StrI(<<"F">>), RB>>, 40000, <<>>, 0)
     [] n = "str200k"   -> MkBig(<<LC, StrI(<<"o">>), CO, StrI(<<"o", "F", "Q", "a", "s", "s">>), RC, LineC(<<"a">>, "open")>>, 200000, <<>>, 0)
     [] n = "nums100k"  -> MkBig(<<LB, RepI, N1, RB>>, 0, <<V("12"), CM>>, 34000)
     [] n = "strs100k"  -> MkBig(<<LB, RepI, N1, RB>>, 0, <<StrI(<<"o", "o">>), CM>>, 20000)
@@ -105,20 +105,26 @@ FamL == {Big(n) : n \in BigFams}
 FamDocs(f) ==
   CASE f \in DOMAIN FamA -> FamA[f]
     [] f \in DOMAIN FamB -> FamB[f]
-    [] f = "C" -> FamC
+    [] f \in DOMAIN GapTriples -> FamC(GapTriples[f])
     [] f = "D" -> FamD
-    [] f = "E" -> {d \in FamE : TRUE}
+    [] f = "E" -> FamE
     [] f = "L" -> FamL
 
 \* ---------------------------------------------------------------- matrix mode
+\* one initial state per family, its documents are the successors (so that TLC's
+\* workers share the families)
 MatrixInit ==
   /\ fam \in Fams
-  /\ doc \in FamDocs(fam)
+  /\ doc = MkDoc(<<>>)
   /\ input = <<>>
   /\ fed = 0 /\ cur = 0 /\ st = "Code" /\ out = <<>> /\ err = FALSE
-  /\ phase = "feed" /\ reads = <<>>
+  /\ phase = "pick" /\ reads = <<>>
   /\ bsk = <<>> /\ bti = 0 /\ bopen = ""
-MatrixNext == UNCHANGED allvars
+MatrixNext ==
+  /\ phase = "pick"
+  /\ doc' \in FamDocs(fam)
+  /\ phase' = "feed"
+  /\ UNCHANGED <<input, fed, cur, st, out, err, reads, fam, bsk, bti, bopen>>
 
 \* ------------------------------------------------------------------ walk mode
 WalkSkels == {SkC, <<Slot>>, <<LB, Slot, CM, Slot, CM, Slot, RB>>,
@@ -212,11 +218,12 @@ CaseOk(d) ==
      /\ NoComments(d) => ref.out = txt
 
 EmitMatrix ==
+  phase = "feed" =>
   /\ Assert(CaseOk(doc), <<"generated document violates the specification", doc>>)
   /\ PrintT(<<"CASE", ToJson(CaseOf(doc, fam, <<>>))>>)
 EmitWalk ==
   phase = "done" =>
     /\ Assert(CaseOk(doc) /\ StripOk, <<"generated document violates the specification", doc>>)
     /\ PrintT(<<"CASE", ToJson(CaseOf(doc, fam, reads))>>)
-WalkInv == phase # "build" => (StripOk /\ PassThrough /\ OutIsFold)
+WalkInv == phase # "build" => (StripOk /\ PassThrough)
 =============================================================================
